@@ -247,6 +247,11 @@ package builder
 //@   | ite(fn == "", "", fn + ":") + sprintf("%d:%d (%d)", pos.line, pos.col, pos.offset)
 //@   | + ite(len(rs) == 0, "", ": " + ite(rs[len(rs)-1].displayName != "", "rule " + rs[len(rs)-1].displayName, "rule " + rs[len(rs)-1].name))
 // ErrsGrow1: the error list grew by exactly one element, the old elements are kept.
+// the error list of a running parser (the pointee of p.errs) is stored directly only by errList.add (append),
+// errList.dedupe (at the very end of a parse) and the left-recursion leader (which puts back the list of the last accepted
+// growth step): no other function can drop an error a sub-expression recorded (C11, C17: "invalid encoding" errors
+// recorded inside a lookahead stay)
+//@ only-writer heap:P_Slice_Any : errList.add errList.dedupe parser.parseRuleRecursiveLeader [errors-writer C11 C17]
 //@ pred ErrsKept(a errList, b errList) bool = len(a) >= len(b) && forall k int :: 0 <= k && k < len(b) ==> a[k] == b[k]
 
 //@ func (p *parser) addErrAt(err error, pos position, expected []string)
